@@ -423,7 +423,10 @@ class HQ(tuple):
 # statements and documents
 # --------------------------------------------------------------------------
 KEYWORD_LOOKALIKE_NAMES = ["beg\u0131n_group", "BEG\u0131N_OBJECT", "fal\u017fe",
-                           "\uff27\uff32\uff2f\uff35\uff30", "ob\u0458ect"]
+                           "\uff27\uff32\uff2f\uff35\uff30", "ob\u0458ect",
+                           # ... and names holding characters that only Python
+                           # takes for white space
+                           "n\xa0me", "\x1ck", "k\u2003", "a\x85b"]
 
 
 def gen_name(rng, reader):
